@@ -260,6 +260,45 @@ def main(tier):
         rep.count(evaluations=fm.n + nfind, distinct=fm.n + nfind)
         rep.notes["map_cases"] = fm.n
         rep.notes["map_lookups"] = nfind
+        # the same lookup through the tools: MAP:KEY specifications, several per process (maps and zones are kept open by name), with
+        # zone names and map names that are prefixes of each other, shorter first and longer first
+        pz = [zname for zname in ("Etc/GMT+1", "Etc/GMT+10", "EST", "EST5EDT", "NZ-CHAT", "NZ", "Etc/GMT-1", "Etc/GMT-14", "UTC", "Asia/Tokyo") if os.path.exists("/usr/share/zoneinfo/" + zname)]
+        mdir = os.path.join(sdir, "maps")
+        os.makedirs(mdir, exist_ok=True)
+        tkeys = ["K%02d" % (i + 1) for i in range(len(pz))]     # ascending, as the compiler demands
+        for mname, rot in (("pfx", 0), ("pfx2", 3), ("p", 5)):
+            with open(os.path.join(mdir, mname + ".tzmap"), "w") as f:
+                for i, k in enumerate(tkeys):
+                    f.write("%s\t%s\n" % (k, pz[(i + rot) % len(pz)]))
+            core.run([tzmap, "cc", "-o", os.path.join(mdir, mname + ".tzmcc"), os.path.join(mdir, mname + ".tzmap")], timeout=30)
+        menv = {"TZMAP_DIR": mdir}
+        when = "2021-07-01T12:00:00"
+        dzone_t = b.tool("dzone")
+        zrow = {}
+        for zname in pz:
+            p = core.run([dzone_t, zname, when], timeout=20)
+            zrow[zname] = p.stdout.split("\t")[0]
+        rng_ = core.rng("c19tool")
+        specs_ = [(m_, k, pz[(i + rot) % len(pz)]) for m_, rot in (("pfx", 0), ("pfx2", 3), ("p", 5)) for i, k in enumerate(tkeys)]
+        orders = [specs_[:len(tkeys)], specs_[:len(tkeys)][::-1], specs_, specs_[::-1]]
+        for _ in range(4 if quick else 40):
+            o_ = list(specs_)
+            rng_.shuffle(o_)
+            orders.append(o_[: rng_.randrange(2, 9)])
+        for o_ in orders:
+            p = core.run([dzone_t] + ["%s:%s" % (m_, k) for m_, k, _ in o_] + [when], timeout=30, env=menv)
+            rows = p.stdout.splitlines()
+            ex = [{"e": "Reset", "keys": ["%s:%s" % (m_, k) for m_, k, _ in specs_], "zones": [zn for _, _, zn in specs_]}]
+            for i, (m_, k, zn) in enumerate(o_):
+                got = rows[i].split("\t")[0] if i < len(rows) else "(no row)"
+                ex.append({"e": "Tool", "key": "%s:%s" % (m_, k), "r": got, "rows": zrow, "cmd": "dzone " + " ".join("%s:%s" % (a_, b_) for a_, b_, _ in o_)})
+            execs.append(ex)
+        for (m1, k1, z1), (m2, k2, z2) in [(a_, b_) for a_ in specs_[:6] for b_ in specs_[:10] if a_ != b_][:: 1 if not quick else 3]:
+            one = core.run([b.tool("dconv"), "--from-zone", "%s:%s" % (m1, k1), "--zone", "%s:%s" % (m2, k2), "-f", "%FT%T", when], timeout=20, env=menv)
+            ref = core.run([b.tool("dconv"), "--from-zone", z1, "--zone", z2, "-f", "%FT%T", when], timeout=20)
+            if one.stdout != ref.stdout:
+                rep.disagree("dconv --from-zone MAP:KEY --zone MAP:KEY differs from the run with the mapped zone names",
+                             {"from": "%s:%s=%s" % (m1, k1, z1), "to": "%s:%s=%s" % (m2, k2, z2), "got": one.stdout.strip(), "want": ref.stdout.strip()})
         nval, rejected, st = core.validate_batches("TzMapTrace", "TzMapTrace.cfg", execs, max_reject=30)
         rep.cov["states"] += st
         rep.cov["transitions"] += st
@@ -267,6 +306,9 @@ def main(tier):
         for ei, pos, ex in rejected:
             bad = ex[pos] if pos < len(ex) else {}
             present = bad.get("key") in ex[0]["keys"]
+            if bad.get("e") == "Tool":
+                rep.disagree("dzone MAP:KEY row is not the row of the mapped zone (several specifications in one process)", {"rejected_event": {k_: bad[k_] for k_ in ("key", "r", "cmd")}})
+                continue
             rep.disagree("tzm_find wrong answer for %s key" % ("a present" if present else "an absent"),
                          {"keys": ex[0]["keys"], "rejected_event": bad})
         if execs:
